@@ -263,6 +263,63 @@ class SymDefaultDict(SymDict):
         return v
 
 
+class SymDictSub(dict):
+    """dict subclass (passes isinstance(x, dict)) whose content lives in a SymDict: for mappings that the code
+    under analysis probes with a symbolic key (PerformedPart.note_array calls note.get(<tick>, default))."""
+
+    def __init__(self, *a, **k):
+        dict.__init__(self)
+        self._m = SymDict(*a, **k)
+
+    def __getitem__(self, key):
+        return self._m[key]
+
+    def __setitem__(self, key, value):
+        self._m[key] = value
+
+    def __delitem__(self, key):
+        del self._m[key]
+
+    def __contains__(self, key):
+        return key in self._m
+
+    def __len__(self):
+        return len(self._m)
+
+    def __iter__(self):
+        return iter(self._m)
+
+    def get(self, key, default=None):
+        return self._m.get(key, default)
+
+    def keys(self):
+        return self._m.keys()
+
+    def values(self):
+        return self._m.values()
+
+    def items(self):
+        return self._m.items()
+
+    def pop(self, key, *d):
+        return self._m.pop(key, *d)
+
+    def setdefault(self, key, default=None):
+        return self._m.setdefault(key, default)
+
+    def update(self, other=(), **k):
+        self._m.update(other, **k)
+
+    def copy(self):
+        return SymDictSub(self._m.items())
+
+    def __eq__(self, other):
+        return self._m == other
+
+    def __repr__(self):
+        return "SymDictSub(%r)" % (self._m.items(),)
+
+
 def install():
     import partitura.score as S
 
